@@ -98,6 +98,36 @@ func heapRoles() []heapRole {
 			a := v(p, "a", k.t)
 			return seq(one(decl(a, k.mk(1))), one(&ExprStmt{X: &Call{F: f, Args: []Expr{a}}}), k.digest(a)), []*Func{f}
 		}},
+		// the callee changes its by-value parameter: the caller's variable must keep its blocks (no double free,
+		// no leak of the replaced part), whatever the optimiser thinks of the parameter
+		{"value-arg-var-callee-overwrites", func(p string, k heapKind) ([]Stmt, []*Func) {
+			w := vr("w", k.t)
+			f := &Func{Name: p + "_ovw", Params: []Param{{Name: "w", T: k.t}}, Ret: Void, Body: seq(one(&Assign{Target: w, Val: k.mk(7)}), k.digest(w))}
+			a := v(p, "a", k.t)
+			return seq(one(decl(a, k.mk(1))), one(&ExprStmt{X: &Call{F: f, Args: []Expr{a}}}), k.digest(a)), []*Func{f}
+		}},
+		{"value-arg-var-callee-mutates-part", func(p string, k heapKind) ([]Stmt, []*Func) {
+			w := vr("w", k.t)
+			var mut []Stmt
+			switch k.name {
+			case "Text":
+				mut = one(&Assign{Target: &Bin{Op: "index", L: w, R: zl(1), T: Char}, Val: cl('Z')})
+			case "ZahlenListe":
+				mut = one(&Assign{Target: &Bin{Op: "index", L: w, R: zl(1), T: Zahl}, Val: zl(99)})
+			case "TextListe":
+				mut = one(&Assign{Target: &Bin{Op: "index", L: w, R: zl(1), T: Text}, Val: &Bin{Op: "verkettet", L: tl("neu"), R: tl("ä"), T: Text}})
+			case "Kombination":
+				mut = seq(one(&Assign{Target: &FieldOf{Name: "name", X: w, T: Text}, Val: &Bin{Op: "verkettet", L: tl("neu"), R: tl("ä"), T: Text}}),
+					one(&Assign{Target: &FieldOf{Name: "werte", X: w, T: ListOf(Zahl)}, Val: &ListLit{T: ListOf(Zahl), El: []Expr{zl(8), zl(9)}}}))
+			case "KombinationenListe":
+				mut = one(&Assign{Target: &FieldOf{Name: "name", X: &Bin{Op: "index", L: w, R: zl(2), T: stQ}, T: Text}, Val: &Bin{Op: "verkettet", L: tl("neu"), R: tl("ä"), T: Text}})
+			default: // a Variable has no parts: a second overwrite with another held type
+				mut = seq(one(&Assign{Target: w, Val: &Cast{X: zl(5), T: Any}}), one(&Assign{Target: w, Val: k.mk(8)}))
+			}
+			f := &Func{Name: p + "_part", Params: []Param{{Name: "w", T: k.t}}, Ret: Void, Body: seq(mut, k.digest(w))}
+			a := v(p, "a", k.t)
+			return seq(one(decl(a, k.mk(1))), one(&ExprStmt{X: &Call{F: f, Args: []Expr{a}}}), k.digest(a), one(&ExprStmt{X: &Call{F: f, Args: []Expr{a}}}), k.digest(a)), []*Func{f}
+		}},
 		{"ref-arg", func(p string, k heapKind) ([]Stmt, []*Func) {
 			f := &Func{Name: p + "_set", Params: []Param{{Name: "w", T: k.t, Ref: true}}, Ret: Void, Body: one(&Assign{Target: vr("w", k.t), Val: k.mk(7)})}
 			a := v(p, "a", k.t)
